@@ -101,7 +101,7 @@ class PipeFamily(Family):
             fail = "-" if rng.below(2) else str(rng.below(nrec + 2))
             out.append({"delim": delim, "fail": fail, "chunks": chunks, "pauses": pauses})
         # a writer that stalls in the middle of a record (longer than any read time-out one might add)
-        for slow in ([600000, 1200000] if tier == "quick" else [300000, 600000, 1200000, 2500000, 5500000]):
+        for slow in ([600000, 1200000, 6000000] if tier == "quick" else [300000, 600000, 1200000, 2500000, 5500000, 6500000, 11000000]):
             data, nrec = stream(rng, 10)
             while len(data) < 8:
                 data, nrec = stream(rng, 10)
